@@ -639,10 +639,10 @@ def u_plotter_fig(W, sk):
     rng = W.rng
     T = Dimension(name="Time", letter="t", items=[2000 + 2 * k for k in range(3)])
     R = Dimension(name="Region", letter="r", items=["EU", "US", "CN"])
-    S_ = Dimension(name="Scenario", letter="s", items=["low", "high"])
+    S_ = Dimension(name="Scenario", letter="s", items=["low", "mid", "high", "top", "peak"][: rng.choice([2, 3, 4, 5])])
     order = [T, R, S_]
     rng.shuffle(order)
-    vals = np.array([rng.randint(1, 99) + rng.random() for _ in range(18)]).reshape([len(d.items) for d in order])
+    vals = np.array([rng.randint(1, 99) + rng.random() for _ in range(9 * len(S_.items))]).reshape([len(d.items) for d in order])
     arr = FlodymArray(dims=DimensionSet(dim_list=order), values=vals, name="y")
     nm = (lambda d: d.name) if sk["naming"] == "names" else (lambda d: d.letter)
     kw = dict(array=arr, intra_line_dim=nm(T), subplot_dim=nm(S_), linecolor_dim=nm(R))
@@ -680,19 +680,48 @@ def u_plotter_fig(W, sk):
             return
         fig = out2.value
     lines = []
+    titles = []  # per line: the title of the subplot it is drawn in
     if sk["lib"] == "plotly":
+        ann = list(fig.layout.annotations or [])
+
+        def title_of(tr):
+            xa_ = "xaxis" + (tr.xaxis or "x")[1:]
+            ya_ = "yaxis" + (tr.yaxis or "y")[1:]
+            xd, yd = fig.layout[xa_].domain, fig.layout[ya_].domain
+            if xd is None or yd is None:
+                return None
+            for a in ann:
+                if a.xref == "paper" and a.yref == "paper" and abs(a.x - (xd[0] + xd[1]) / 2) < 1e-9 and abs(a.y - yd[1]) < 1e-9:
+                    return a.text
+            return None
+
         for tr in fig.data:
             lines.append((list(tr.x), list(tr.y), tr.name))
+            titles.append(title_of(tr))
     else:
         for ax in fig.axes:
             if chart == "scatter":
                 for pc in ax.collections:
                     off = pc.get_offsets()
                     lines.append(([float(p[0]) for p in off], [float(p[1]) for p in off], pc.get_label()))
+                    titles.append(ax.get_title())
             else:
                 for ln in ax.get_lines():
                     lines.append((list(ln.get_xdata()), list(ln.get_ydata()), ln.get_label()))
+                    titles.append(ax.get_title())
         plt.close(fig)
+    # every line sits in the subplot whose title names the subplot item its y-data belong to
+    by_y = {}
+    for a_ in [arr] + ([arr2] if arr2 is not None else []):
+        for s_item in S_.items:
+            for r_item in R.items:
+                by_y[tuple(float(a_[{"s": s_item, "r": r_item, "t": t}].values) for t in T.items)] = s_item
+    placed = [(by_y.get(tuple(float(v) for v in ly)), tt) for (lx, ly, ln_), tt in zip(lines, titles)]
+    W.prove(
+        "figure.each_line_in_the_subplot_titled_with_its_subplot_item",
+        all(si is None or tt is None or tt.split("=")[-1] == si for si, tt in placed) and any(tt is not None for _, tt in placed),
+        detail=str([(si, tt) for si, tt in placed if si is not None and tt is not None and tt.split("=")[-1] != si][:3]),
+    )
     suppressed = kw.get("suppress_legend", False) and sk["lib"] == "pyplot"
 
     def wanted(a):
